@@ -239,8 +239,10 @@ struct Encoding<Table, EnableIfHasEntryList<Table>> : EncodingIO<Table> {
       if (!status)
         return status;
 
-      // Default construct the entry;
-      *entry = T{};
+      // Default construct the entry in place. Assigning T{} would select the
+      // converting assignment from Optional<U> when T is itself an Optional
+      // and leave the entry empty.
+      *entry = Entry<T, Id, ActiveEntry>{InPlace{}};
 
       // Use a BoundedReader to handle any padding that might follow the
       // value and catch invalid sizes while decoding inside the binary
